@@ -306,6 +306,18 @@ class SnapshotLogger(Oracle):
             # run's markets, otherwise the log would depend on which scenarios the worker process ran before
             mine = {name: s.market_status[m.market_info] for name, m in sim.markets.items()}
             sim.event("snapshot", phase, digest([s.timestamp, s.row_id, s.prices, mine]))
+            # a strategy may keep what it was handed (`self.last = snapshot.prices`): time, row and prices of a snapshot
+            # stay what they were at hand-over whatever comes later (the market rows are left out: Snapshot.market_status is a
+            # process-wide shared dict on the unchanged tree, DESIGN 11.2)
+            if not hasattr(self, "kept"):
+                self.kept = []
+            self.kept.append((bar, phase, s, s.prices, digest([s.timestamp, s.row_id, s.prices])))
+
+    def finish(self, sim):
+        for bar, phase, s, prices, d0 in getattr(self, "kept", []):
+            if digest([s.timestamp, s.row_id, prices]) != d0 or s.prices is not prices and digest([s.timestamp, s.row_id, s.prices]) != d0:
+                sim.violate("c02.lookahead", f"kept_snapshot:{phase}:changed_after_hand_over", bar=bar, now=[s.timestamp, s.row_id, s.prices])
+                break
 
 
 def frame_hash(df, user_columns=()):
